@@ -513,3 +513,26 @@ Proof.
       * exfalso. exact (absolute_predecessor_no_internal (n ++ o) o p e0 Vno Vo Ao S P).
     + exfalso. eapply mk_name_never_internal; eauto.
 Qed.
+
+(* the predecessor of the origin itself: the documented wrap to the longest name below the
+   origin (the origin again when nothing can be prepended); never before the origin *)
+Theorem predecessor_of_origin o p s :
+  Valid o -> is_absolute o = true ->
+  predecessor o o p = Ok s ->
+  Valid s /\ is_subdomain s o = true /\ order o s <= 0 /\ exists pads, s = pads ++ o.
+Proof.
+  intros Vo Ao. unfold predecessor, handle_relativity. rewrite Ao. cbn [negb].
+  assert (o <> []) as Ho by (apply absolute_ne; exact Ao).
+  assert (is_subdomain o o = true) as Soo by (apply (is_subdomain_suffix [] o o); [reflexivity|exact Ho]).
+  rewrite Soo. cbn [negb bind]. unfold absolute_predecessor.
+  assert (name_eqb o o = true) as -> by (apply name_eqb_iff_ci; reflexivity).
+  destruct (pad_to_max_name o) as [s'| |] eqn:P; cbn [bind]; try discriminate.
+  intros X; inversion X; subst s'.
+  apply pad_to_max_name_prefix in P. destruct P as (pads & -> & Vs).
+  split; [exact Vs|]. split; [apply is_subdomain_suffix; [reflexivity|exact Ho]|].
+  split; [|eauto].
+  destruct pads as [|x pads].
+  - cbn [app]. rewrite order_refl. lia.
+  - pose proof (order_ancestor_lt (x :: pads) o o (eq_refl _) Ho) as L.
+    assert (order o ((x :: pads) ++ o) < 0) by (apply L; discriminate). lia.
+Qed.
